@@ -180,7 +180,7 @@ def applyPurged (s : State) (name : Bytes) (qtype qclass : UInt16) (a f c h : Li
   -- failures, cuts: exact
   let fs' := purgeFailures s.fs name qtype qclass
   let wantF := sortStrings ((s.fs.filter fun p => !(fs'.map showF).contains (showF p)).map showF)
-  let cuts' := purgeCuts s.cuts name qclass
+  let cuts' := purgeCutsLoop s.cuts name qclass
   let gone := s.cuts.filter fun c => !cuts'.contains c
   let wantC := ((gone.map (·.id)).toArray.qsort (· < ·)).toList.map toString
   -- removeEntryLocked drops only the cut's OWN hash slot, and only while it still points at it
@@ -595,6 +595,10 @@ def stepPipe (s : State) (w : List String) : State × String :=
         | none => "miss"
       match route, i.name with
       | "wire", Name.wire wn => (s, sh (failureLookupWire H s.fs.get wn i.qtype i.qclass i.cd))
+      | "store", n =>
+        match n.presentation with
+        | some p => (s, sh (storeLookupFailure H s.fs.get p i.qtype i.qclass i.cd i.scope))
+        | none => (s, "bad-op")
       | "msg", n =>
         match n.presentation with
         | some p => (s, sh (failureLookup H s.fs.get p i.qtype i.qclass i.cd i.scope))
